@@ -25,6 +25,85 @@ UNSUPPORTED = [
 ]
 
 
+NUM_RE = re.compile(r'(-?[0-9][0-9_]*(?:\.[0-9_]*)?(?:[eE][+-]?[0-9]+)?)(f64|f32|[iu](?:8|16|32|64|128|size))?$')
+PI_RE = re.compile(r'(?:::)?(?:(?:std|core)::)?f(?:64|32)::consts::PI')
+
+
+def const_real(text):
+    """R5: a compile-time float constant expression (literals, f64::consts::PI, + - * /, parentheses) -> the exact real it
+    denotes, as Verus text; None when the text is anything else"""
+    from fractions import Fraction
+    t = PI_RE.sub(' @PI@ ', text)
+    toks = re.findall(r'@PI@|[0-9][0-9_]*(?:\.[0-9_]*)?(?:[eE][+-]?[0-9]+)?(?:f64|f32|[iu](?:8|16|32|64|128|size))?|[-+*/()]|\S+', t)
+    out = []
+    for x in toks:
+        if x == '@PI@':
+            out.append('r_pi()')
+        elif x in '+-*/()':
+            out.append(x)
+        else:
+            m = NUM_RE.match(x)
+            if not m:
+                return None
+            fr = Fraction(m.group(1).replace('_', '').rstrip('.') if not m.group(1).endswith('.') else m.group(1).replace('_', '') + '0')
+            out.append('%dreal' % fr.numerator if fr.denominator == 1 else '(%dreal / %dreal)' % (fr.numerator, fr.denominator))
+    if not out:
+        return None
+    txt = ' '.join(out)
+    # unary minus at the start or after an operator / parenthesis: 0 - x
+    txt = re.sub(r'(^|[(*/+-]\s*)-\s*', lambda m: m.group(1) + '0real - ', txt)
+    if txt.count('(') != txt.count(')'):
+        return None
+    return '(' + txt + ')'
+
+
+def rewrite_casts(body, unit):
+    """R5 (general form): `cast(<constant expression>)[.unwrap()]` -> the model scalar holding exactly that real"""
+    out = ''
+    i = 0
+    for m in re.finditer(r'(?<![A-Za-z0-9_.])cast\(', body):
+        if m.start() < i:
+            continue
+        depth, j = 1, m.end()
+        while j < len(body) and depth:
+            if body[j] in '([{':
+                depth += 1
+            elif body[j] in ')]}':
+                depth -= 1
+            j += 1
+        arg = body[m.end():j - 1]
+        val = const_real(arg.strip())
+        if val is None:
+            continue
+        out += body[i:m.start()]
+        mu = re.match(r'\s*\.\s*unwrap\(\s*\)', body[j:])
+        if mu:
+            out += 'sc_const(Ghost(%s))' % val
+            i = j + mu.end()
+        else:
+            out += 'Some(sc_const(Ghost(%s)))' % val
+            i = j
+    return out + body[i:]
+
+
+def subst_named_consts(body, unit, f):
+    """module-level `const NAME: f64 = <expr>;` of the crate are replaced by their defining expression (in parentheses)"""
+    consts = getattr(unit.src, 'consts', None)
+    if consts is None:
+        consts = {}
+        from rsparse import Other
+        for it in unit.src.items:
+            if isinstance(it, Other) and it.kind == 'const':
+                txt = unit.src.p.text(it.toks[0], it.toks[1])
+                m = re.match(r'.*?const\s+([A-Z][A-Z0-9_]*)\s*:\s*(f64|f32)\s*=\s*(.*?);?\s*$', txt, re.S)
+                if m:
+                    consts[m.group(1)] = m.group(3).strip()
+        unit.src.consts = consts
+    for k, v in consts.items():
+        body = re.sub(r'(?<![A-Za-z0-9_:.])%s(?![A-Za-z0-9_])' % k, '(%s)' % v, body)
+    return body
+
+
 def apply_body_rules(body, unit, c, f):
     for rx, why in UNSUPPORTED:
         if rx.search(body):
@@ -39,7 +118,9 @@ def apply_body_rules(body, unit, c, f):
         body = rx.sub(repl, body)
     if 'panic' in body and 'vpanic' not in body.replace('vpanic', ''):
         pass
-    # R5 named constants
+    # R5 named constants of the crate, then constant casts in general
+    body = subst_named_consts(body, unit, f)
+    body = rewrite_casts(body, unit)
     body = re.sub(r'cast\(\s*180\.0\s*/\s*f64::consts::PI\s*\)\s*\.unwrap\(\)', 'Sc::const_180_over_pi()', body)
     body = re.sub(r'cast\(\s*f64::consts::PI\s*/\s*180\.0\s*\)\s*\.unwrap\(\)', 'Sc::const_pi_over_180()', body)
     body = re.sub(r'cast\(\s*f64::consts::PI\s*\*\s*2\.0\s*\)\s*\.unwrap\(\)', 'Sc::const_two_pi()', body)
